@@ -1400,9 +1400,18 @@ class FortranFile:
                 line_no_comment = line
             # Split lines with semicolons, place the multiple lines into a stack
             if line_stripped.find(";") >= 0:
-                multi_lines.extendleft(line_stripped.split(";"))
+                # `;` outside character literals are found in the stripped line,
+                # the statements keep their literals
+                pieces = []
+                i_start = 0
+                for i_semi, char in enumerate(line_stripped):
+                    if char == ";":
+                        pieces.append(line_no_comment[i_start:i_semi])
+                        i_start = i_semi + 1
+                pieces.append(line_no_comment[i_start:])
+                multi_lines.extendleft(pieces)
                 line = multi_lines.pop()
-                line_stripped = line
+                line_stripped = strip_strings(line, maintain_len=True)
                 line_no_comment = line
             # Test for scope end
             if file_ast.end_scope_regex is not None:
